@@ -280,6 +280,7 @@ class LoopRec:
     carried: Dict[str, T] = field(default_factory=dict)   # loop-carried variables: name -> widened term after the loop
     break_envs: list = field(default_factory=list)        # (pc, env) at every `break` of this loop
     entry_pc: Optional[tuple] = None                      # path condition in force when the loop is entered
+    continue_envs: list = field(default_factory=list)     # (pc, env) at every `continue` of this loop
 
 
 @dataclass
@@ -430,6 +431,25 @@ class Interp:
                     out = list(v)
             cache[dotted] = out
         return cache[dotted]
+
+    def decorators_return_function(self, mod: ModuleInfo, fnode) -> bool:
+        """Do the decorators of a module-level function hand back the function itself (registration decorators do)?  Decided
+        by applying them symbolically to the function: the name then still denotes the undecorated function."""
+        cache = self.__dict__.setdefault("_deco_identity", {})
+        k = id(fnode)
+        if k not in cache:
+            cache[k] = False            # (also the answer for a decorator that reaches this function again)
+            try:
+                fr = _Frame(self, mod, fnode, None, Record(), f"{mod.name}.<module>", 0, ())
+                st = State({}, {}, ())
+                me = T("func", (f"{mod.name}.{fnode.name}",))
+                val = me
+                for deco in reversed(fnode.decorator_list):
+                    val = fr.call(fr.eval(deco, st), (val,), (), st, deco)
+                cache[k] = val == me
+            except Exception:
+                cache[k] = False
+        return cache[k]
 
     def is_simple(self, fnode) -> bool:
         """May the function be inlined at a call site?  No generators, no try, no global/nonlocal, and every `return`
@@ -881,7 +901,8 @@ class _Frame:
             else:
                 env[name] = param(name)
         if a.vararg:
-            env[a.vararg.arg] = T("tuple", (tuple(pos),)) if pos else param("*" + a.vararg.arg)
+            # an inlined call that passes no extra positional argument binds the empty tuple
+            env[a.vararg.arg] = T("tuple", (tuple(pos),)) if (pos or not symbolic_missing) else param("*" + a.vararg.arg)
         for p, dflt in zip(a.kwonlyargs, a.kw_defaults):
             if p.arg in args:
                 env[p.arg] = args[p.arg]
@@ -1030,6 +1051,8 @@ class _Frame:
                 lr.exits.append((kind, st.pc, self.seq(), s.lineno))
                 if kind == "break":
                     lr.break_envs.append((st.pc, dict(st.env)))
+                elif kind == "continue":
+                    lr.continue_envs.append((st.pc, dict(st.env)))
 
     def s_Delete(self, s, st):
         for tgt in s.targets:
@@ -1319,8 +1342,9 @@ class _Frame:
                 step = out.env[n]
             elif n in body_st.env:
                 step = body_st.env[n]
+            # an iteration cut short by `continue` ends with the value the variable has there (under that path's condition);
             # the value a variable has when the loop is left through `break` also reaches the code after the loop
-            for bpc, benv in lr.break_envs:
+            for bpc, benv in lr.continue_envs + lr.break_envs:
                 if n in benv and benv[n] != step:
                     cond = pc_to_term(bpc[entry_len:])
                     step = benv[n] if (step is None or cond is None) else T("ite", (cond, benv[n], step))
@@ -2642,7 +2666,7 @@ class _Frame:
             return None
         for d in fnode.decorator_list:
             dn = ast.unparse(d)
-            if dn not in ("staticmethod", "classmethod"):
+            if dn not in ("staticmethod", "classmethod") and not (cls is None and self.I.decorators_return_function(mod, fnode)):
                 return None
         fr = _Frame(self.I, mod, fnode, cls, self.rec, qualname, self.depth + 1, self.stack + (id(fnode),),
                     base_pc=st.pc, base_loops=self.loops, base_trys=self.trys)
